@@ -321,12 +321,16 @@ def run_c08(tier, seed, res):
 # ------------------------------------------------------------------ C15
 def run_c15(tier, seed, res):
     E.run_workload(res, "mon", "C15", sz(tier, 200000, 5000000), tier, seed)
+    # the very long sentences once more in an unoptimised build (stack depth per token as a debug build has it)
+    for first in ([777] if tier == "quick" else [777, 3777, 6777, 9777]):
+        E.run_workload(res, "dbg", "C15", 1, tier, seed, first_case=first, tag="c15-dbg-%d" % first, per_case_timeout=600.0, chunks=1, hang_limit=1200, stall_limit=900)
+        res.add_counter("very_long_sentences_filtered_in_unoptimised_build", 1)
     return {
         "rule": "case = sentence (texts with ZWJ sequences, regional indicators, combining marks, Hangul jamo, CR/LF/CRLF, runs of one type; "
                 "labels incl. unknown; 0..3 tag slots) x 9 filters (six character types, line breaks, grapheme clusters, pattern tagger with "
                 "random rules); after filter: text, types, tag count, every boundary and every tag compared with the reference rule "
                 "(grapheme clusters from unicode-segmentation over the whole string); filter applied twice == once; distinct = distinct sentences",
-        "required": ["sentences_with_rule_for_token_of_63_or_more_chars", "sentences_with_tens_of_thousands_of_skipped_tokens", "fallback_sentences_filtered", "sentences_where_extended_and_legacy_clusters_differ", "sentences_with_empty_string_tag",
+        "required": ["very_long_sentences_filtered_in_unoptimised_build", "sentences_with_rule_for_token_of_63_or_more_chars", "sentences_with_tens_of_thousands_of_skipped_tokens", "fallback_sentences_filtered", "sentences_where_extended_and_legacy_clusters_differ", "sentences_with_empty_string_tag",
                      "sentences_with_multi_char_grapheme_cluster", "sentences_with_cr_or_lf", "sentences_with_unknown_boundary",
                      "sentences_with_tags", "single_character_sentences", "sentences_with_cluster_longer_than_64_bytes",
                      "sentences_with_more_than_32_tag_columns",
